@@ -850,7 +850,6 @@ func ruleR39R40(c *Ctx) {
 	}
 }
 
-
 // isGreatestKeyCall: the call yields restoreKey(maximum(t.root)) – written in place or inside a
 // helper of the tree that returns it (lastKey()).
 func (c *Ctx) isGreatestKeyCall(u *FuncUnit, call *ast.CallExpr, depth int) bool {
